@@ -40,6 +40,48 @@ EXC_CODES = {"KeyError": 1, "RuntimeError": 2, "ValueError": 3, "TypeError": 4, 
              "IndexError": 6, "OSError": 7, "FileNotFoundError": 7, "Abandoned": 8}
 
 
+def _attrs(obj):
+    """(name, value) of the instance attributes, whatever they are called"""
+    try:
+        return list(vars(obj).items())
+    except TypeError:
+        out = []
+        for k in dir(obj):
+            if not k.startswith("__"):
+                try:
+                    out.append((k, getattr(obj, k)))
+                except Exception:      # noqa
+                    pass
+        return out
+
+
+def lock_of(obj):
+    """the lock of a component, found by TYPE (the module's threading is the scheduler's shim, so the lock is a
+    CoopLock), not by its private name"""
+    for _, v in _attrs(obj):
+        if isinstance(v, sched.CoopLock):
+            return v
+    return None
+
+
+def attr_name_where(obj, pred, what):
+    for k, v in _attrs(obj):
+        if pred(v):
+            return k
+    raise LookupError(f"{what}: no such attribute on {type(obj).__name__}")
+
+
+def _patch_function(patch, mod, real, new):
+    """replace the function `real` as module `mod` uses it: under whatever name it was imported into mod, else (the
+    module calls it through its home module) in the home module"""
+    import sys as _sys
+    hits = [k for k, v in vars(mod).items() if v is real]
+    for k in hits:
+        patch.set(mod, k, new)
+    if not hits:
+        patch.set(_sys.modules[real.__module__], real.__name__, new)
+
+
 def exc_result(e):
     return [9, EXC_CODES.get(type(e).__name__, 0)]
 
@@ -343,7 +385,7 @@ class _GuardedBacking:
         self._rec = rec
 
     def _chk(self):
-        lk = getattr(self._o, "_lock", None)
+        lk = lock_of(self._o)
         if not (isinstance(lk, sched.CoopLock) and lk.owner is not None):
             self._rec.guard_violations += 1
         if threading.get_ident() in _FAIL_FOR:     # the fault is injected into the injecting thread's call only
@@ -383,13 +425,15 @@ class CacheScenario(Scenario):
     files = [VC.__file__]
 
     def build(self):
-        self.patch.set(VC, "threading", sched.shim())
-        self.cache = VC.SynchronizedCache(VC.LRUCache(cache_size=self.case["cap"],
-                                                      mark_on_update=bool(self.case.get("mark", 1))))
-        lk = getattr(self.cache, "_lock", None)
+        sched.patch_module_use(VC, threading, sched.shim(), self.patch.set)
+        self.cache_inner = VC.LRUCache(cache_size=self.case["cap"], mark_on_update=bool(self.case.get("mark", 1)))
+        self.cache = VC.SynchronizedCache(self.cache_inner)
+        lk = lock_of(self.cache)
         if isinstance(lk, sched.CoopLock):
             lk.log = _LockLog(self.rec)
-        self.cache._backing_cache = _GuardedBacking(self.cache._backing_cache, self.cache, self.rec)
+        inner = self.cache_inner
+        name = attr_name_where(self.cache, lambda v: v is inner, "backing cache of SynchronizedCache")
+        setattr(self.cache, name, _GuardedBacking(inner, self.cache, self.rec))
         # legal configuration "wrapper around wrapper": a component wraps the cache it is handed once more while
         # the owner keeps using the inner wrapper; the LRU cache must still be guarded by the INNER lock
         self.outer = VC.SynchronizedCache(self.cache) if self.case.get("nested") else None
@@ -466,7 +510,8 @@ def text_content(pairs, bad):
 
 class TextScenario(Scenario):
     files = [TF.__file__]
-    funcs = {"get_data": None, "find_system": None, "_update_data": 16}
+    funcs = sched.with_fallback({"get_data": None, "find_system": None, "_update_data": 16},
+                                [(TF.__file__, ["get_data", "find_system", "_update_data"])])
 
     def build(self):
         c = self.case
@@ -484,9 +529,10 @@ class TextScenario(Scenario):
                     with open(os.path.join(self.tmp, f"state{wid}.txt"), "w") as f:
                         f.write(text_content(c["contents"][wid], c["bad"][wid]))
         self._write(0)
-        self.patch.set(TF, "threading", sched.shim())
+        sched.patch_module_use(TF, threading, sched.shim(), self.patch.set)
         rec = self.rec
-        real_vffp = TF.version_for_file_path
+        import vinegar.utils.version as VV0
+        real_vffp = VV0.version_for_file_path
 
         import errno
         import vinegar.utils.version as VV
@@ -500,19 +546,21 @@ class TextScenario(Scenario):
                 # a transient stat error other than ENOENT/EACCES while the file is being replaced; the file
                 # itself stays readable
                 _FAIL_FOR.discard(threading.get_ident())
-                real_os = VV.os
+                real_os = os
                 fake_os = types.SimpleNamespace(**{k: getattr(real_os, k) for k in dir(real_os) if not k.startswith("__")})
 
                 def failing_stat(*a, **k):
                     raise OSError(errno.ESTALE, "Stale file handle")
                 fake_os.stat = failing_stat
-                VV.os = fake_os
+                # `import os` and `from os import stat` in the version module are the same to the harness
+                stat_patch = _Patch()
+                sched.patch_module_use(VV, real_os, fake_os, stat_patch.set)
                 try:
                     return real_vffp(p)
                 finally:
-                    VV.os = real_os
+                    stat_patch.undo()
             return real_vffp(p)
-        self.patch.set(TF, "version_for_file_path", vffp)
+        _patch_function(self.patch, TF, real_vffp, vffp)
         scen = self
 
         def opener(*a, **k):
@@ -525,7 +573,7 @@ class TextScenario(Scenario):
         self.src = TF.get_instance({"file": self.path, "regular_expression": TEXT_RE,
                                     "system_id": {"source": "id"}, "variables": {"v": {"source": "v"}},
                                     "cache_enabled": bool(c["cache_enabled"]), "mismatch_action": "error"})
-        lk = getattr(self.src, "_lock", None)
+        lk = lock_of(self.src)
         if isinstance(lk, sched.CoopLock):
             lk.log = _LockLog(self.rec)
 
@@ -631,7 +679,7 @@ class _GuardedConn:
         self._rec = rec
 
     def _chk(self):
-        lk = getattr(self._store, "_lock", None)
+        lk = lock_of(self._store)
         if not (isinstance(lk, sched.CoopLock) and lk.owner is not None):
             self._rec.guard_violations += 1
 
@@ -651,13 +699,16 @@ class StoreScenario(Scenario):
     files = [SS.__file__]
 
     def build(self):
-        self.patch.set(SS, "threading", sched.shim())
+        sched.patch_module_use(SS, threading, sched.shim(), self.patch.set)
         self.tmp = tempfile.mkdtemp(prefix="c19s")
         self.store = SS.DataStore(os.path.join(self.tmp, "db.sqlite"))
-        lk = getattr(self.store, "_lock", None)
+        lk = lock_of(self.store)
         if isinstance(lk, sched.CoopLock):
             lk.log = _LockLog(self.rec)
-        self.store._connection = _GuardedConn(self.store._connection, self.store, self.rec)
+        import sqlite3
+        self.conn_name = attr_name_where(self.store, lambda v: isinstance(v, sqlite3.Connection), "connection of DataStore")
+        self.real_conn = getattr(self.store, self.conn_name)
+        setattr(self.store, self.conn_name, _GuardedConn(self.real_conn, self.store, self.rec))
 
     def do(self, call):
         op = call[0]
@@ -703,7 +754,7 @@ class StoreScenario(Scenario):
 
     def cleanup(self):
         try:
-            self.store._connection._c.close()
+            self.real_conn.close()
         except Exception:
             pass
         super().cleanup()
@@ -748,7 +799,11 @@ class YamlScenario(Scenario):
     # with the Jinja engine (case["engine"] == "jinja") the data files are read by the template loader: every
     # line of its get_source / up-to-date callback is a yield point, so that a file can be replaced between any
     # two of the loader's file-system accesses (stat, open, stat)
-    funcs = {"compile_data": 9, "get_source": None, "up_to_date_with_cache": None, "up_to_date_without_cache": None}
+    funcs = sched.with_fallback({"compile_data": 9, "get_source": None, "up_to_date_with_cache": None,
+                                 "up_to_date_without_cache": None},
+                                [(JJ.__file__, ["get_source", "up_to_date_with_cache", "up_to_date_without_cache"])])
+    # (compile_data is not in a fallback group: tracing every function of yaml_target.py would put thousands of
+    # points into one call; if it is renamed the lock operations and file opens remain the yield points)
 
     def build(self):
         c = self.case
@@ -760,8 +815,8 @@ class YamlScenario(Scenario):
         for i in range(len(names)):
             self._write(i)
         sh = sched.shim()
-        self.patch.set(YT, "threading", sh) if hasattr(YT, "threading") else None
-        self.patch.set(VC, "threading", sh)
+        sched.patch_module_use(YT, threading, sh, self.patch.set)
+        sched.patch_module_use(VC, threading, sh, self.patch.set)
         rec = self.rec
         tmp = self.tmp
         def opener(path, *a, **k):
@@ -776,22 +831,31 @@ class YamlScenario(Scenario):
             return open(path, *a, **k)
         self.patch.set(YT, "open", opener)
         self.patch.set(JJ, "open", opener)
-        real_jj_vffp = JJ.version_for_file_path
+        import vinegar.utils.version as VV0
+        real_jj_vffp = VV0.version_for_file_path
 
         def jj_vffp(path):
             i = rec.me()
             if i is not None and os.path.basename(str(path)) != "top.yaml":
                 rec.file_stat(i, os.path.basename(str(path)), rec.total.get(i, 0) - 3)
             return real_jj_vffp(path)
-        self.patch.set(JJ, "version_for_file_path", jj_vffp)
-        ysh = types.SimpleNamespace(**{k: getattr(YT.yaml, k) for k in dir(YT.yaml) if not k.startswith("__")})
+        _patch_function(self.patch, JJ, real_jj_vffp, jj_vffp)
+        import yaml as real_yaml
+        ysh = types.SimpleNamespace(**{k: getattr(real_yaml, k) for k in dir(real_yaml) if not k.startswith("__")})
         ysh.safe_load = _memo_safe_load
-        self.patch.set(YT, "yaml", ysh)
+        sched.patch_module_use(YT, real_yaml, ysh, self.patch.set)      # `import yaml` or `from yaml import safe_load`
         cfg = {"root_dir": self.tmp, "template": None, "cache_size": 8}
         if c.get("engine") == "jinja":
             cfg = {"root_dir": self.tmp, "cache_size": 8}          # the default engine, template cache enabled
         self.src = YT.YamlTargetSource(cfg)
-        lk = getattr(self.src._cache, "_lock", None)
+        # the item cache of the source: the attribute that is a SynchronizedCache (or anything holding a lock)
+        lk = None
+        for _, v in _attrs(self.src):
+            if isinstance(v, VC.SynchronizedCache) or (not isinstance(v, (str, bytes, int, float, bool, type(None)))
+                                                       and hasattr(v, "__dict__") and lock_of(v) is not None):
+                lk = lock_of(v)
+                if lk is not None:
+                    break
         if isinstance(lk, sched.CoopLock):
             lk.log = _LockLog(self.rec)
 
@@ -850,9 +914,13 @@ def explore_config(job):
     case, bound, budget_s = job
     cls = SCENARIOS[case["comp"]]
     res = []
-    deadline = time.time() + budget_s
+    # the budget is CPU time of this worker process (so that the set of schedules covered does not shrink when other
+    # checks run at the same time); wall-clock only as a cap at four times the budget
+    deadline = time.time() + 4 * budget_s
+    cpu_deadline = time.process_time() + budget_s
     for schedule, out in sched.explore(lambda: cls(case), cls.files, cls.funcs, max_preempt=bound,
-                                       unit_names=("env",), max_decisions=3000, deadline=deadline):
+                                       unit_names=("env",), max_decisions=3000, deadline=deadline,
+                                       cpu_deadline=cpu_deadline):
         res.append(([list(p) for p in schedule], out.verdict))
     return res
 
@@ -1000,7 +1068,7 @@ class C19(Check):
     def gen(self, tier, rng):
         self.tier = tier
         cfgs = self.configs(tier)
-        budget = 30 if tier == "quick" else 300
+        budget = 24 if tier == "quick" else 300
         jobs = [(c, b, budget) for c, b in cfgs]
         order = sorted(range(len(jobs)), key=lambda i: -jobs[i][1])
         with multiprocessing.get_context("fork").Pool(min(14, common.NPROC)) as pool:
